@@ -59,7 +59,19 @@ func kinds(ps []tds.Package) string {
 	return s
 }
 
-func runCase(c c14Case) (f *vh.Failure) {
+// runCase judges one case. Verdicts that rest on the wall clock alone are only reported if they
+// repeat (a busy machine can delay the reader goroutine by seconds; a reader that never reports
+// the failure does so every time).
+func runCase(c c14Case) *vh.Failure {
+	f := runCaseOnce(c)
+	for try := 0; f != nil && try < 2 && (f.Class == "C14/no-error-within-bound" || f.Class == "C14/blocks-beyond-bound" || f.Class == "C14/polling-consumer-never-told"); try++ {
+		vh.Label("timing-verdict-repeated")
+		f = runCaseOnce(c)
+	}
+	return f
+}
+
+func runCaseOnce(c c14Case) (f *vh.Failure) {
 	defer func() {
 		if r := recover(); r != nil {
 			vh.CheckHarnessPanic(r)
